@@ -1,19 +1,35 @@
 --------------------------- MODULE M_DOTQ ---------------------------
-(* C02: partitions whose names extend one another across the key separator ("p" and "p.q", "example.com" and
-   "example.com.au") WITHOUT colliding keys: the items of one partition are then not contiguous in any separator-joined
+(* C02: partitions whose names extend one another across a separator-like byte ("p" and "p.q", "acme" and "acme#eu",
+   "example.com" and "example.com.au") WITHOUT colliding keys: the items of one partition are then not contiguous in any separator-joined
    ordering, and a Query must still return exactly its partition, in order, forward and backward, paged or not.     *)
 EXTENDS ModelLib
 T1 == "tbl1"
+Seps == {46, 45, 35, 32, 47, 126}      \* . - # space / ~ : below and above the separator in byte order
 P1 == Str(<<112>>)
-P2 == Str(<<112, 46, 113>>)
+P2(c) == Str(<<112, c, 113>>)
 It(h, rb, n) == [h |-> h, r |-> Str(rb), who |-> Num(n)]
 HK == Cmp("=", Path("h"), Val(":h"))
 Q(hv, fwd) == QueryOp("c1", T1, NoIndex, HK, NoFilter, <<>>, One(":h", hv), fwd)
 QR(hv, op, rb) == QueryOp("c1", T1, NoIndex, And(HK, Cmp(op, Path("r"), Val(":r"))), NoFilter, <<>>, [n \in {":h", ":r"} |-> IF n = ":h" THEN hv ELSE Str(rb)], TRUE)
-Trace1 == << AddTable("c1", T1, "h", "r"), Put(T1, It(P1, <<49>>, 1)), Put(T1, It(P1, <<114>>, 2)), Put(T1, It(P1, <<122>>, 3)), Put(T1, It(P2, <<49>>, 4)), Put(T1, It(P2, <<115>>, 5)),
-             Q(P1, TRUE), Q(P1, FALSE), Q(P2, TRUE), Q(P2, FALSE), QR(P1, ">=", <<114>>), QR(P1, "<", <<122>>), QR(P2, ">", <<49>>),
-             WalkOp(Q(P1, TRUE), 1, FALSE), WalkOp(Q(P1, FALSE), 2, FALSE), WalkOp(Q(P2, TRUE), 1, FALSE), ScanOp("c1", T1, NoIndex, NoFilter, <<>>, <<>>) >>
-ASSUME PrintT(ToJson([kind |-> "trace", ops |-> Trace1]))
+TableTrace(c) ==
+  << AddTable("c1", T1, "h", "r"), Put(T1, It(P1, <<49>>, 1)), Put(T1, It(P1, <<114>>, 2)), Put(T1, It(P1, <<122>>, 3)), Put(T1, It(P2(c), <<49>>, 4)), Put(T1, It(P2(c), <<115>>, 5)),
+     Q(P1, TRUE), Q(P1, FALSE), Q(P2(c), TRUE), Q(P2(c), FALSE), QR(P1, ">=", <<114>>), QR(P1, "<", <<122>>), QR(P2(c), ">", <<49>>),
+     WalkOp(Q(P1, TRUE), 1, FALSE), WalkOp(Q(P1, FALSE), 2, FALSE), WalkOp(Q(P2(c), TRUE), 1, FALSE), ScanOp("c1", T1, NoIndex, NoFilter, <<>>, <<>>) >>
+\* the same through secondary indexes: index partitions "p" and "p<c>q" (and sort keys that extend one another), several
+\* items per index key; every observation reads each index forward and backward, whole and per partition
+GK == Cmp("=", Path("g"), Val(":g"))
+IX(n) == [some |-> TRUE, n |-> n]
+QI(ix, gv, fwd) == QueryOp("c1", T1, IX(ix), GK, NoFilter, <<>>, One(":g", gv), fwd)
+Ig(hb, gv, sb, n) == [h |-> Str(hb), g |-> gv, s |-> Str(sb), who |-> Num(n)]
+IndexTrace(c) ==
+  << AddTable("c1", T1, "h", ""), AddIndex("c1", T1, "gix", "g", ""), AddIndex("c1", T1, "gsx", "g", "s"),
+     Put(T1, Ig(<<97>>, P1, <<49>>, 1)), Put(T1, Ig(<<98>>, P2(c), <<49>>, 2)), Put(T1, Ig(<<99>>, P1, <<49, c, 50>>, 3)),
+     Put(T1, Ig(<<100>>, P2(c), <<48>>, 4)), Put(T1, Ig(<<101>>, P1, <<48>>, 5)),
+     QI("gix", P1, TRUE), QI("gix", P2(c), TRUE), QI("gsx", P1, TRUE), QI("gsx", P1, FALSE), QI("gsx", P2(c), FALSE),
+     ScanOp("c1", T1, IX("gix"), NoFilter, <<>>, <<>>), ScanOp("c1", T1, IX("gsx"), NoFilter, <<>>, <<>>),
+     WalkOp(QI("gsx", P1, TRUE), 1, FALSE), WalkOp(QI("gix", P1, FALSE), 2, FALSE),
+     Del(T1, [h |-> Str(<<97>>)], FALSE), QI("gix", P1, TRUE), QI("gsx", P2(c), TRUE) >>
+ASSUME \A c \in Seps : PrintT(ToJson([kind |-> "trace", ops |-> TableTrace(c)])) /\ PrintT(ToJson([kind |-> "trace", ops |-> IndexTrace(c)]))
 SetupDef == <<>>
 MenuDef == <<>>
 BoundDef(d) == TRUE
